@@ -24,12 +24,12 @@ import (
 // The pool shared by the parent and its child processes (C08, C09).
 
 type encSpec struct {
-	Bad  bool  `json:"bad"` // a string that is not valid UTF-8: this Encode fails
-	Seed int64 `json:"seed"`
-	FT   int   `json:"ft"`
-	K    int   `json:"k"`
-	Odd  bool  `json:"odd"`
-	Arch int   `json:"arch"`
+	Bad  bool   `json:"bad"` // a string that is not valid UTF-8: this Encode fails
+	Seed int64  `json:"seed"`
+	FT   int    `json:"ft"`
+	K    int    `json:"k"`
+	Odd  bool   `json:"odd"`
+	Arch int    `json:"arch"`
 	Str  string `json:"str"` // every string field of every message is set to this value
 }
 
